@@ -439,7 +439,8 @@ def run_tier(tier, seed, workers, budget_s, n_worlds, n_exec, n_real, n_traced=0
             floor_exec += [dict(env='free', want=['transform_key_tie']), dict(env='ideal', want=['transform_key_tie']),
                            dict(env='free', want=['transform_key_tie', 'rotate', 'translate']),
                            dict(want=['geo_all_ge2_not_all']), dict(want=['explicit_tags']),
-                           dict(want=['multi_media']), dict(kinds=['impedance', 'rlc', 'trap', 'laplace']),
+                           dict(want=['multi_media']), dict(want=['taper']), dict(want=['taper'], env='ideal'),
+                           dict(kinds=['impedance', 'rlc', 'trap', 'laplace']),
                            dict(kinds=['skin_r', 'insulation'])]
             for i in range(n_exec):
                 spec = dict(seed=seed * 1000003 + 500000 + i, scratch=scratch, real=(i < n_real))
